@@ -12,6 +12,9 @@
 (*   `positional` or an unnamed field -> positional item, in order         *)
 (*   `argument("M")` / `positional("M")` -> metavariable, default "ARG"    *)
 (*   doc comment -> help; hide, fallback, switch as annotated              *)
+(*   a field name written as a raw identifier (r#type) loses the prefix    *)
+(*   a nested type: doc comment -> header of the group, attached before    *)
+(*   the type-level `fallback(..)` / `display_fallback`                    *)
 (*   enum -> choice between its variants: unit variant -> required flag    *)
 (*   named `--kebab-variant` (short/long annotations as for fields),       *)
 (*   struct variant -> group of its fields, `command` variants ->          *)
@@ -87,7 +90,8 @@ Derive(td) ==
        \* header unless an explicit group_help annotation names one
        LET o == FieldSeq(td, td.fields, "f")  n == FieldSeq(td, td.inner.fields, "i")
            gh == IF td.inner.group_help # "" THEN td.inner.group_help ELSE td.inner.doc IN
-       LevelOf(o.named \o <<[kind |-> "seq", id |-> "inner", arity |-> "one", fields |-> n.named, group_help |-> gh,
+       LevelOf(o.named \o <<[kind |-> "seq", id |-> "inner", arity |-> IF td.inner.fallback THEN "fallback_group" ELSE "one",
+                              fields |-> n.named, group_help |-> gh,
                               hidden |-> FALSE, guard |-> FALSE, catch |-> FALSE, help |-> ""]>>,
                [kind |-> "none"], td.version, "")
   ELSE IF td.shape \in {"struct", "tuple"}
